@@ -64,6 +64,10 @@ M = [
   "      return small_vector_iterator (m_ptr--);", "      return small_vector_iterator (--m_ptr);"),
  ("M29-growth-no-saturation", ["C12"], "capacity doubling without the saturation test (2*capacity wraps / truncates near max_size)", HDR,
   "        if (get_max_size () - current_capacity <= current_capacity)\n          return get_max_size ();\n", ""),
+ ("M30-cx-heaptmp-leak", ["C08"], "heap_temporary (constant evaluation only) never gives its block back", HDR,
+  "          m_interface.destroy (m_data_ptr);\n          m_interface.deallocate (m_data_ptr, sizeof (value_ty));", "          m_interface.destroy (m_data_ptr);"),
+ ("M31-cx-insert-alias", ["C08"], "constant-evaluated insert(pos,n,v[i]) fills from the aliased argument instead of the temporary", HDR,
+  "              ptr inserted_end = shift_into_uninitialized (pos, count);\n              std::fill (pos, inserted_end, tmp.get ());", "              ptr inserted_end = shift_into_uninitialized (pos, count);\n              std::fill (pos, inserted_end, val);"),
  # negative controls: behaviour-preserving edits, every check must stay silent
  ("N01-growth-1.5", [], "NEGATIVE CONTROL: growth factor 1.5 (allowed by C14)", HDR,
   "        const size_ty new_capacity = 2 * current_capacity;", "        const size_ty new_capacity = current_capacity + (current_capacity / 2);"),
